@@ -23,8 +23,13 @@ for name in sorted(rows):
     dst = os.path.join(out, sid)
     os.makedirs(dst, exist_ok=True)
     for f in ("patch.diff", "demo.rs"):
-        shutil.copy(os.path.join(src, f), os.path.join(dst, f))
-    author_notes = open(os.path.join(src, "meta.txt")).read()
+        if os.path.abspath(src) != os.path.abspath(dst):
+            shutil.copy(os.path.join(src, f), os.path.join(dst, f))
+    mt = os.path.join(src, "meta.txt")
+    if not os.path.exists(mt):
+        mt = os.path.join(src, "author_notes.txt")
+    author_notes = open(mt).read()
+    open(os.path.join(dst, "author_notes.txt"), "w").write(author_notes)
     extra = {}
     ex = os.path.join(dst, "confirm_extra.json")
     if os.path.exists(ex):
@@ -65,4 +70,7 @@ with open(os.path.join(out, "RESULTS.md"), "w") as f:
     f.write("\nNot every check was run against every change (target + C01 C03 C05 C08 C12 for histsim targets; C17 + C07; C18): 'checks that alarm' lists\nthose of the checks run that alarmed; meta.json of each change also lists the ones that were run and stayed quiet.\n")
     f.write("\n%d of %d seeded changes are caught by the check of the property they were written to break; %d by at least one check.\n"
             % (caught, len(table), sum(1 for r in table if r[5].strip())))
+with open(os.path.join(out, "results.jsonl"), "w") as f:
+    for name in sorted(rows):
+        f.write(json.dumps(rows[name]) + "\n")
 print("recorded", len(table))
